@@ -213,18 +213,33 @@ impl<'c, Q: Queue> Interp<'c, Q> {
         let id = self.resolve_target(t);
         let pv = self.resolve_prio(p, id);
         let old = self.model.get(id);
-        let got = if by_ref {
-            self.q.change_priority(&id, Prio::new(pv))
+        // the new priority carries a stamp ignored by Ord/Eq: "returns the old priority" and "holds the last
+        // one assigned" stay decidable when the two compare equal
+        let offered_stamp = 0x6000_0000u32 | (self.step as u32 & 0xffff) << 8 | (id & 0xff);
+        let stored_stamp_before = self.q.get_priority(&id).map(|p| p.stamp);
+        let got_full = if by_ref {
+            self.q.change_priority(&id, Prio::stamped(pv, offered_stamp))
         } else {
-            self.q.change_priority(&Key::new(id, 0xdead_0001), Prio::new(pv))
-        }
-        .map(|x| x.v);
+            self.q.change_priority(&Key::new(id, 0xdead_0001), Prio::stamped(pv, offered_stamp))
+        };
+        let got_stamp = got_full.as_ref().map(|x| x.stamp);
+        let got = got_full.map(|x| x.v);
+        let stored_stamp_after = self.q.get_priority(&id).map(|p| p.stamp);
         let want = old.map(|x| x.1);
         if got != want {
             self.fail(
                 Group::Ret,
                 "change_priority_ret",
                 format!("change_priority({}, {}) returned {:?}, model says {:?}", id, pv, got, want),
+            );
+        } else if old.is_some() && (got_stamp != stored_stamp_before || stored_stamp_after != Some(offered_stamp)) {
+            self.fail(
+                Group::Ret,
+                "change_priority_which_priority",
+                format!(
+                    "change_priority({}, {}) on stored {:?} must return the old priority object and store the given one; returned stamp {:?} (given {:x}, stored before {:?}), stored afterwards {:?}",
+                    id, pv, old, got_stamp, offered_stamp, stored_stamp_before, stored_stamp_after
+                ),
             );
         }
         self.tr(TraceEv::OptPrio(got));
